@@ -18,7 +18,7 @@ RULE = ('full product: n x n for n=1..3 (quick) / 1..4, rectangular 2x3, 3x2 (th
         'replicas, irregular lists, with covariance inputs}; operations matmul (2,3,4 factors, also real x complex), inv, '
         'cholesky, det (cofactor expansion), eigh (A v = lambda v, v^T v = 1), eig, eigv, pinv (A A+ A = A), svd (U S V^h = A); '
         'jack_matmul and einsum against the exact product (value 1e-12, fluctuations within C/N) on contiguous, strided, '
-        'shifted and irregular single chains, real and complex.  Non-trivial = n > 1 or a mixed layout family')
+        'shifted and irregular single chains, real and complex; call history: inv / cholesky / pinv / det / eigh on one matrix in all 120 orders, the same array object passed again after one / all entries were replaced.  Non-trivial = n > 1 or a mixed layout family')
 ASSUMPTIONS = ['matrix values are diagonally dominant / symmetric positive definite (well conditioned)',
                'entries of one matrix share their replica sets or their per-replica configuration sets (the regime in which C01 '
                'promises split-independence); the products that form the left-hand sides use pyerrors scalar arithmetic (C01)']
@@ -187,6 +187,12 @@ def build(tier, seed):
         for shape in rect:
             for kind in ('obs', 'mixed'):
                 cases.append({'kind': 'rect', 'fam': fam, 'shape': list(shape), 'ekind': kind})
+    # call history: several operations on the SAME matrix in every order; the same ndarray object refilled between two calls
+    for fam in FAMILIES:
+        for n in (2, 3):
+            cases.append({'kind': 'sequence', 'fam': fam, 'n': n})
+    for kind in ('obs', 'cobs'):
+        cases.append({'kind': 'refill', 'ekind': kind})
     for ik in ('contiguous', 'strided', 'shifted', 'irregular'):
         for kind in ('obs', 'cobs', 'real-complex'):
             cases.append({'kind': 'jack', 'idl': ik, 'ekind': kind})
@@ -204,6 +210,10 @@ def run_case(case):
             run_rect(pe, acc, case)
         elif case['kind'] == 'cmixed':
             run_cmixed(pe, acc, case)
+        elif case['kind'] == 'sequence':
+            run_sequence(pe, acc, case)
+        elif case['kind'] == 'refill':
+            run_refill(pe, acc, case)
         else:
             run_jack(pe, acc, case)
     return acc
@@ -361,6 +371,65 @@ def run_cmixed(pe, acc, case):
     acc.sample({'kind': 'cmixed', 'family': fam, 'n': n, 'variants': 'number / complex number / real Obs at [0,0], number at [-1,-1]; C and F order'})
 
 
+def run_sequence(pe, acc, case):
+    fam, n = case['fam'], case['n']
+    L = pe.linalg
+    S = build_matrix(pe, fam, (n, n), 'SEQ', 'obs', symmetric=True)
+    I = eye_like(n)
+    ops = {
+        'inv': lambda: mclose(S @ L.inv(S), I, pe),
+        'cholesky': lambda: (lambda C: mclose(C @ C.T, S, pe))(L.cholesky(S)),
+        'pinv': lambda: mclose(S @ L.pinv(S) @ S, S, pe),
+        'det': lambda: oclose(L.det(S), cofactor_det(S), pe),
+        'eigh': lambda: (lambda wv: mclose(S @ wv[1], wv[1] @ np.diag(wv[0]), pe))(L.eigh(S)),
+    }
+    for order in itertools.permutations(sorted(ops)):
+        if 'order' in case and case['order'] != list(order):
+            continue
+        for pos, name in enumerate(order):
+            sub = dict(case, order=list(order), position=pos)
+            try:
+                bad = ops[name]()
+            except Exception as e:
+                bad = 'raised %s: %s' % (type(e).__name__, e)
+            if bad:
+                acc.fail('sequence:%s' % name, sub, '%s as operation %d of the sequence %s on one %dx%d matrix (%s): %s' % (name, pos + 1, list(order), n, n, fam, bad))
+                break
+        else:
+            acc.ok(('seq', fam, n, order), True, 'sequence')
+    acc.sample(dict(case, operations=sorted(ops), orders='all %d' % math.factorial(len(ops))))
+
+
+def run_refill(pe, acc, case):
+    """the same ndarray object passed again after its entries were replaced"""
+    kind = case['ekind']
+    L = pe.linalg
+    for fam in FAMILIES:
+        for n in (2, 3):
+            G = build_matrix(pe, fam, (n, n), 'RF1', kind)
+            H = build_matrix(pe, fam, (n, n), 'RF2', kind)
+            G2 = build_matrix(pe, fam, (n, n), 'RF3', kind)
+            sub = dict(case, fam=fam, n=n)
+            try:
+                bad = mclose(L.matmul(G, H), G @ H, pe)
+                step = 'first call'
+                if not bad:
+                    G[0, 0] = G2[0, 0]                 # one entry replaced
+                    bad = mclose(L.matmul(G, H), G @ H, pe) or mclose(L.matmul(H, G), H @ G, pe)
+                    step = 'after one entry of the first operand was replaced'
+                if not bad:
+                    G[...] = G2                         # all entries replaced, same array object
+                    bad = mclose(L.matmul(G, H), G @ H, pe) or (mclose(G @ L.inv(G), eye_like(n), pe) if kind == 'obs' else None)
+                    step = 'after the first operand was refilled'
+            except Exception as e:
+                bad, step = 'raised %s: %s' % (type(e).__name__, e), 'call'
+            if bad:
+                acc.fail('refill:%s' % kind, sub, 'matmul with the same array object, %s (%s, n=%d, %s entries): %s' % (step, fam, n, kind, bad))
+            else:
+                acc.ok(('refill', fam, n, kind), True, 'refill')
+    acc.sample(dict(case, steps=['first call', 'one entry replaced', 'all entries replaced']))
+
+
 def run_rect(pe, acc, case):
     fam, shape, kind = case['fam'], tuple(case['shape']), case['ekind']
     L = pe.linalg
@@ -412,6 +481,7 @@ def run_jack(pe, acc, case):
                      ('jack_matmul:complex-real', lambda: L.jack_matmul(B, A), lambda: L.matmul(B, A)),
                      ('jack_matmul3:real-complex-real', lambda: L.jack_matmul(A, B, A), lambda: L.matmul(A, B, A)),
                      ('jack_matmul3:complex-number-real', lambda: L.jack_matmul(B, Nm, A), lambda: L.matmul(B, Nm, A)),
+                     ('jack_matmul3:number-real-complex', lambda: L.jack_matmul(Nm, A, B), lambda: L.matmul(Nm, A, B)),
                      ('einsum:real-complex', lambda: L.einsum('ij,jk->ik', A, B), lambda: L.matmul(A, B)),
                      ('einsum:complex-real:implicit', lambda: L.einsum('ij,jk', B, A), lambda: L.matmul(B, A))]
         else:
@@ -420,6 +490,8 @@ def run_jack(pe, acc, case):
                      ('einsum', lambda: L.einsum('ij,jk->ik', A, B), lambda: L.matmul(A, B)),
                      ('jack_matmul3', lambda: L.jack_matmul(A, B, A), lambda: L.matmul(A, B, A)),
                      ('jack_matmul:number', lambda: L.jack_matmul(A, Nm), lambda: L.matmul(A, Nm)),
+                     ('jack_matmul:number-first', lambda: L.jack_matmul(Nm, A), lambda: L.matmul(Nm, A)),
+                     ('jack_matmul3:number-middle', lambda: L.jack_matmul(A, Nm, B), lambda: L.matmul(A, Nm, B)),
                      ('einsum:implicit', lambda: L.einsum('ij,jk', A, B), lambda: L.matmul(A, B)),
                      ('einsum:implicit-transposed', lambda: L.einsum('ba,ac', A, B), lambda: L.matmul(A, B)),
                      ('einsum:implicit-kj', lambda: L.einsum('ij,kj', A, B), lambda: L.matmul(A, B.T)),
